@@ -340,12 +340,12 @@ def net_prim(ctx: Ctx):
     tattrs = tainted_attrs(ctx)
     typeerror = prog.ext_class("builtins.TypeError")
     indexerror = prog.ext_class("builtins.IndexError")
-    from ..calls import arity_error
+    from ..calls import arity_error, argtype_error
 
     def prim(node, fn, res):
         out = []
-        if isinstance(node, ast.Call) and arity_error(prog, res, node, fn) is not None:
-            out.append(typeerror)      # the call fails before the callee runs (C09: an internal exception on a network path)
+        if isinstance(node, ast.Call) and (arity_error(prog, res, node, fn) is not None or argtype_error(prog, res, node, fn) is not None):
+            out.append(typeerror)      # the call fails before / inside the callee with a TypeError (C09: an internal exception on a network path)
         if isinstance(node, ast.Call):
             # <object of a package class without __getitem__>[...]: TypeError (e.g. a ProtocolResponse indexed like its payload)
             own = [node.func] + list(node.args) + [k.value for k in node.keywords]
@@ -523,3 +523,55 @@ def only_send_request_transmits(ctx: Ctx, rep, rule: str, ci: ClassInfo):
             ok = only_reached_from(ctx, m, [sr])
             rep.check(ok, rule, "sender:%s.%s" % (ci.name, m.name), m.loc(sends[0]), "%s is the transmission helper of %s" % (m.short, ci.name),
                       bad="%s writes to the transport outside _send_request: the frame goes out without the request lock / timer discipline and (Modbus/TCP) with the transaction id of an earlier transmission" % m.short)
+
+
+def none_derefs(ctx: Ctx, fn: FuncInfo):
+    """Paths of *fn* on which a test has just established that ``self.<attr>`` is unset (falsy / None) and, with no
+    assignment of that attribute and no call that could assign it in between, a method is called or an attribute read
+    on it: an AttributeError ('NoneType' object has no attribute ...).  [(path, node, 'self.attr')], one per site."""
+    out, seen = [], set()
+    try:
+        net = protocol_paths(ctx, fn)          # with the network exceptions: the handlers' code is on these paths
+    except AnalysisError:
+        net = []
+    for p in list(enumerate_paths(ctx.prog, fn, lambda n, f: [])) + list(net):
+        unset = {}
+        for i, ev in enumerate(p.events):
+            if ev.kind == "test":
+                node, val = ev.node, bool(ev.data)
+                while isinstance(node, ast.UnaryOp) and isinstance(node.op, ast.Not):
+                    node, val = node.operand, not val
+                if isinstance(node, ast.Compare) and len(node.ops) == 1 and isinstance(node.comparators[0], ast.Constant) and node.comparators[0].value is None \
+                        and isinstance(node.ops[0], (ast.Is, ast.IsNot)):
+                    val = (not val) if isinstance(node.ops[0], ast.Is) else val
+                    node = node.left
+                c = chain(node)
+                if c and len(c) == 2 and c[0] == "self" and isinstance(node, ast.Attribute):
+                    if val is False:
+                        unset[c[1]] = i
+                    else:
+                        unset.pop(c[1], None)
+                    continue
+                # any other test: look for a dereference inside it (x.is_closing() after 'not x')
+                for x in ast.walk(ev.node):
+                    if isinstance(x, ast.Attribute) and isinstance(x.value, ast.Attribute) and chain(x.value) and chain(x.value)[0] == "self" \
+                            and len(chain(x.value)) == 2 and chain(x.value)[1] in unset and id(x) not in seen:
+                        seen.add(id(x))
+                        out.append((p, x, "self." + chain(x.value)[1]))
+            elif ev.kind == "stmt":
+                from ..astutil import self_store
+                for a, _, _ in self_store(ev.node):
+                    unset.pop(a, None)
+            elif ev.kind in ("call", "await", "enter"):
+                node = ev.node
+                if ev.kind == "call" and isinstance(node, ast.Call) and isinstance(node.func, ast.Attribute):
+                    c = chain(node.func.value)
+                    if c and len(c) == 2 and c[0] == "self" and c[1] in unset and id(node) not in seen:
+                        seen.add(id(node))
+                        out.append((p, node, "self." + c[1]))
+                        continue
+                    if c and c[0] == "self" and len(c) == 1:
+                        unset.clear()          # a method of the same object may assign anything
+                if ev.kind == "await":
+                    unset.clear()              # other code ran in between
+    return out
